@@ -64,11 +64,12 @@ def id_token(name, nonce, client_id, rotated=False, iss_suffix=""):
 
 
 class ClientWorld:
-    def __init__(self, framework, names, cache_mode, pkce, openid, oauth1=False, rotate=False, discovery=False):
+    def __init__(self, framework, names, cache_mode, pkce, openid, oauth1=False, rotate=False, discovery=False, ext_cache=False):
         ms.install_clock()
         CLOCK.now = NOW0
         self.framework, self.names, self.cache_mode, self.pkce, self.openid = framework, list(names), cache_mode, pkce, openid
         self.oauth1 = oauth1          # the providers are OAuth 1 services (request token = the flow's state)
+        self.ext_cache = ext_cache    # (Flask) a cache extension (Flask-Caching style) is initialised on the app, but NO cache is handed to the OAuth registry
         self.discovery = discovery    # the providers are registered with server_metadata_url only: endpoints come from the discovery document, fetched on first use
         self.rotate = rotate          # the provider signs ID tokens with a key that is not in the client's cached JWKS (key rotation)
         self.issued_secrets = {}      # OAuth 1: request token -> its secret, as the provider issued them
@@ -118,6 +119,8 @@ class ClientWorld:
         from flask import Flask
         from authlib.integrations.flask_client import OAuth
         self.app = Flask("c14"); self.app.secret_key = "x"
+        if self.ext_cache:
+            self.app.extensions["cache"] = {SyncCache(): "backend"}          # as Flask-Caching registers itself: {Cache instance: backend}
         self.oauth = OAuth(self.app, cache=self.cache)
         for n in self.names:
             self.oauth.register(n, **self._reg_kwargs(n))
